@@ -209,3 +209,16 @@ Fixpoint guarded_descent (maxd depth : Z) (t : rose) : Z * bool :=
   match t with
   | Rose ks => descent_loop (guarded_descent maxd (depth + 1)%Z) ks depth
   end.
+
+(* ------------------------------------------------------------------ 6. object stream index *)
+
+(* types/streamdict.go:ObjectStreamDict.IndexedObject:
+   `if osd.ObjArray == nil || index < 0 || index >= len(osd.ObjArray) { return nil, err }` *)
+Definition indexed_ok (arr_nil : bool) (len index : Z) : bool :=
+  negb (arr_nil || (index <? 0)%Z || (len <=? index)%Z).
+
+(* read.go:extractXRefTableEntriesFromXRefStream bufToInt64: `i <<= 8; i |= int64(b)` over the field's
+   bytes, in int64 (wraps: an 8 byte field with the top bit set is negative) *)
+Definition wrap64 (z : Z) : Z := ((z + 9223372036854775808) mod 18446744073709551616 - 9223372036854775808)%Z.
+Definition buf_to_int64 (buf : list N) : Z :=
+  fold_left (fun i b => wrap64 (Z.lor (wrap64 (i * 256)) (Z.of_N b))) buf 0%Z.
